@@ -1620,6 +1620,9 @@ class Engine:
 			st.heap[obj.addr] = Record(rec.cls, nf)
 			yield st, None
 			return
+		if isinstance(obj, ExcInstance):
+			yield st, None        # attributes of exception objects (messages, file names) carry no verified meaning
+			return
 		h = self.lib.get('setattr:' + type(obj).__name__)
 		if h is not None:
 			yield from h(self, st, obj, attr, v, node)
